@@ -40,7 +40,10 @@ echo "build=$B suite_with_change=$T demo_without_change=$W0 demo_with_change=$W1
 SNAP=$(mktemp -d ${TMPDIR:-/var/tmp}/verif-snap.XXXXXX)
 rsync -a --exclude .git --exclude out --exclude evidence --exclude seeded /verif/ $SNAP/
 RES=""
-for p in $(python3 -c "import json;print(' '.join(c['property_id'] for c in json.load(open('/verif/MANIFEST.json'))['checks']))"); do
+ALLCHECKS=$(python3 -c "import json;print(' '.join(c['property_id'] for c in json.load(open('/verif/MANIFEST.json'))['checks']))")
+# FAST=1: only the check of the seed's own property here (run_seeded.sh records which checks raise, for all of them)
+[ -n "$FAST" ] && ALLCHECKS=${NAME:0:3}
+for p in $ALLCHECKS; do
   OUT=$(set -o pipefail; VERIF_REPO=$S VERIF_EVIDENCE_DIR=$S/.evidence $SNAP/check $p 2>&1 | sed "s#$SNAP#/verif#g"); RC=$?
   V=$(echo "$OUT" | grep -c '^VIOLATION')
   U=$(echo "$OUT" | grep -c '^UNDECIDED')
